@@ -307,10 +307,13 @@ def pairing(ctx):
         if not sets_true:
             continue
         cfg = CFG(f.node)
+        # the closing store: `= False`, or `= <local>` where the local was read from the flag before it was switched on
+        saved = {a.targets[0].id for a in walk_no_nested(f.node) if isinstance(a, ast.Assign) and len(a.targets) == 1 and isinstance(a.targets[0], ast.Name)
+                 and (attr_chain(a.value) or [""])[-1] == "insertFromTable" and all(a.lineno < s_.lineno for s_ in sets_true)}
         for s in sets_true:
             n5 += 1
             bad = cfg.must_follow(cfg.locate(s), lambda n: _is_store(
-                n, ["insertFromTable"], lambda v: isinstance(v, ast.Constant) and v.value is False))
+                n, ["insertFromTable"], lambda v: (isinstance(v, ast.Constant) and v.value is False) or (isinstance(v, ast.Name) and v.id in saved)))
             r.check("C01.3", not bad, "P5::%s" % f.qual, "%s:%d" % (PARSER_REL, s.lineno),
                     "insertFromTable is set and not cleared on a normal exit: later inserts are foster-parented "
                     "(path %s)" % (bad[0][1][:5] if bad else ""), detail={"bracket": f.qual})
@@ -1537,6 +1540,65 @@ def missing_steps(ctx):
                     "clause) removes a list entry instead and leaves the outer b open")])
 
 
+def reentrant_brackets(ctx):
+    """C01.23: the in-table rules process many tokens "using the rules for in body, with foster parenting enabled".  html5lib
+    brackets the delegation with `insertFromTable = True ... = False`.  The in-body handlers close elements through the *current*
+    phase (`self.parser.phase.processEndTag(impliedTagToken(..))`), which is still "in table" -- whose end-tag fallback is
+    itself such a bracket.  The inner bracket's closing `= False` switches foster parenting off for the rest of the outer step:
+    `<table><li>a<li>b` appends the second li to the table.  A bracket that can be re-entered must restore the value it found."""
+    r = ctx.r
+    pm = model(ctx)
+    r.rule("C01.23", "a foster-parenting bracket that can be re-entered restores the value it found", floor=2)
+    mod = ctx.repo.module(PARSER_REL)
+    brackets = []
+    for f in mod.all_functions:
+        on = [a for a in walk_no_nested(f.node) if isinstance(a, ast.Assign) and norm(a.targets[0]).endswith(".insertFromTable") and norm(a.value) == "True"]
+        if on:
+            brackets.append(f)
+    if len(brackets) < 2:
+        r.idiom("C01.23", False, "foster-bracket-reentrancy", PARSER_REL, "the foster-parenting brackets were not found")
+        return
+    bq = {f.fq: f for f in brackets}
+
+    def restores(f):
+        stores = [a for a in walk_no_nested(f.node) if isinstance(a, ast.Assign) and norm(a.targets[0]).endswith(".insertFromTable")]
+        closes = [a for a in stores if norm(a.value) != "True"]
+        return bool(closes) and all(isinstance(a.value, ast.Name) for a in closes) and any(
+            isinstance(a, ast.Assign) and isinstance(a.targets[0], ast.Name) and norm(a.value).endswith(".insertFromTable") and
+            a.targets[0].id in {c.value.id for c in closes if isinstance(c.value, ast.Name)} for a in walk_no_nested(f.node))
+    entered_from = {}
+    for f in brackets:
+        # what the bracket delegates to, and what that can reach
+        calls = [c for c in walk_no_nested(f.node) if isinstance(c, ast.Call) and "phases['inBody']" in norm(c.func)]
+        for c in calls:
+            meth = c.func.attr if isinstance(c.func, ast.Attribute) else None
+            ib = pm.phases.get("inBody")
+            g = ib.find_method(meth) if ib is not None and meth else None
+            if g is None:
+                continue
+            for nm in (pm.domain if meth in ("processStartTag", "processEndTag") else [None]):
+                roots = []
+                if meth in ("processStartTag", "processEndTag"):
+                    h, _how = pm.handler(ib, "StartTag" if meth == "processStartTag" else "EndTag", nm)
+                    if h is not None:
+                        roots.append((h, nm))
+                else:
+                    roots.append((g, None))
+                nodes, edges, sites = pm.build_graph(roots)
+                for k in nodes:
+                    if k[0] in bq:
+                        entered_from.setdefault(k[0], set()).add(f.qual)
+    for fq, f in sorted(bq.items()):
+        outer = sorted(entered_from.get(fq, ()))
+        key = "foster-bracket-reentrancy::%s" % f.qual
+        r.check("C01.23", restores(f) or not outer, key, f.where,
+                "%s is a foster-parenting bracket (`insertFromTable = True ... = False`) that can be entered while another one is open: the "
+                "in-body handlers that %s delegates to close elements through the current phase, which is still the table phase.  Its closing "
+                "`= False` then switches foster parenting off in the middle of the outer step: `<table><li>a<li>b` puts the second li inside "
+                "the table" % (f.qual, ", ".join(outer[:2])),
+                {"bracket": f.qual, "entered_from": outer[:5]}, detail={"restores_previous_value": restores(f), "entered_from": outer[:5]})
+
+
 def run(ctx):
     r = ctx.r
     r.explanation = (
@@ -1585,6 +1647,7 @@ def run(ctx):
     reprocess_condition(ctx)
     pop_until_html_element(ctx)
     missing_steps(ctx)
+    reentrant_brackets(ctx)
     from . import modes
     modes.run(ctx, "C01.12")
     standard_tables(ctx)
@@ -1598,6 +1661,7 @@ def thorough(ctx):
 def mutants():
     from ..selftest import TextMutant as T
     return [
+        T("foster-bracket-closes-with-false", "html5parser.py", "        self.parser.phases[\"inBody\"].processEndTag(token)\n        self.tree.insertFromTable = fosterParenting", "        self.parser.phases[\"inBody\"].processEndTag(token)\n        self.tree.insertFromTable = False", "C01.23"),
         T("frameset-switch-in-fragment", "html5parser.py", "        if (not self.parser.innerHTML and\n                self.tree.openElements[-1].name != \"frameset\"):", "        if self.tree.openElements[-1].name != \"frameset\":", "C01.12"),
         T("aaa-step2-dropped", "html5parser.py", "        currentNode = self.tree.openElements[-1]\n        if (currentNode.name == token[\"name\"] and\n                currentNode.namespace == self.tree.defaultNamespace and\n                currentNode not in self.tree.activeFormattingElements):\n            self.tree.openElements.pop()\n            return\n", "", "C01.22"),
         T("row-context-name-only", "html5parser.py", "        while (self.tree.openElements[-1].namespace != self.tree.defaultNamespace or\n               self.tree.openElements[-1].name not in (\"tr\", \"html\")):", "        while self.tree.openElements[-1].name not in (\"tr\", \"html\"):", "C01.19"),
@@ -1645,7 +1709,7 @@ def mutants():
           "        self.parser.tokenizer.state = self.parser.tokenizer.scriptDataState\n        self.parser.originalPhase = self.parser.phase\n",
           "        self.parser.tokenizer.state = self.parser.tokenizer.scriptDataState\n", "C01.3"),
         T("fosterbracket", "html5parser.py",
-          "        self.tree.insertFromTable = True\n        self.parser.phases[\"inBody\"].processEndTag(token)\n        self.tree.insertFromTable = False",
+          "        self.tree.insertFromTable = True\n        self.parser.phases[\"inBody\"].processEndTag(token)\n        self.tree.insertFromTable = fosterParenting",
           "        self.tree.insertFromTable = True\n        self.parser.phases[\"inBody\"].processEndTag(token)", "C01.3"),
         T("exclude-wrong", "html5parser.py", '            self.tree.generateImpliedEndTags("p")\n', '            self.tree.generateImpliedEndTags("li")\n', "C01.3"),
         T("dup-key", "html5parser.py", '        ("hr", startTagHr),\n        ("image", startTagImage),',
@@ -1673,8 +1737,8 @@ def mutants():
         T("quirks-system-missing", "html5parser.py", '                     "-//w3c//dtd html 4.01 transitional//")) and\n                systemId is None or', '                     "-//w3c//dtd html 4.01 transitional//")) and\n                systemId is not None or', "C01.10"),
         T("quirks-case-sensitive", "html5parser.py", "        if publicId != \"\":\n            publicId = publicId.translate(asciiUpper2Lower)\n", "", "C01.10"),
         T("quirks-prefix-typo", "html5parser.py", '"-//w3c//dtd html 3.2 final//",', '"-//w3c//dtd html 3.2 finale//",', "C01.10"),
-        T("reprocess-dropped-in-table", "html5parser.py", "        new_token = self.parser.phases[\"inBody\"].processStartTag(token)\n        self.tree.insertFromTable = False\n        return new_token",
-          "        self.parser.phases[\"inBody\"].processStartTag(token)\n        self.tree.insertFromTable = False", "C01.11"),
+        T("reprocess-dropped-in-table", "html5parser.py", "        new_token = self.parser.phases[\"inBody\"].processStartTag(token)\n        self.tree.insertFromTable = fosterParenting\n        return new_token",
+          "        self.parser.phases[\"inBody\"].processStartTag(token)\n        self.tree.insertFromTable = fosterParenting", "C01.11"),
         T("scope-drop-td", "constants.py", '    (namespaces["html"], "td"),\n    (namespaces["html"], "th"),\n    (namespaces["mathml"], "mi"),',
           '    (namespaces["html"], "th"),\n    (namespaces["mathml"], "mi"),', "C01.5"),
         T("svg-attr-case", "constants.py", '"viewbox": "viewBox"', '"viewbox": "viewbox"', "C01.5"),
